@@ -1,6 +1,8 @@
 #!/bin/sh
 # usage: check.sh <property id> <quick|thorough>
 # Loads /repo's current working tree afresh on every run; nothing from /repo is executed.
+# thorough = the same exhaustive static check plus an informational sensitivity pass over the
+# seeded breaks in mutants/ (sensitivity.sh); the exit code is always the verdict on /repo.
 set -u
 HERE="$(cd "$(dirname "$0")" && pwd)"
 export GOFLAGS=-mod=mod GOPROXY=off GOSUMDB=off GOTOOLCHAIN=local
@@ -9,4 +11,10 @@ BIN="$HERE/bin/verifchk"
 if [ ! -x "$BIN" ] || [ -n "$(find "$HERE/checker" -name '*.go' -newer "$BIN" 2>/dev/null | head -1)" ]; then
   (cd "$HERE/checker" && go build -o "$BIN" .) || { echo "cannot build checker" >&2; exit 2; }
 fi
-VERIF_DIR="$HERE" exec "$BIN" "$@"
+VERIF_DIR="$HERE" "$BIN" "$@"
+rc=$?
+tier="${2:-${VERIF_TIER:-quick}}"
+if [ "$tier" = thorough ] && [ $rc -le 1 ] && [ -f "$HERE/evidence/$1.json" ]; then
+  "$HERE/sensitivity.sh" "$1" || true
+fi
+exit $rc
